@@ -157,7 +157,7 @@ fn exec_session(sess: &mut Session, toks: &[&str]) -> Option<String> {
         "new" => {
             let p: usize = toks[1].parse().unwrap();
             sess.pkg = None;
-            let m = Medium::new(Vec::new());
+            let m = crate::session::Medium::new(Vec::new());
             sess.medium = Some(m.clone());
             return Some(match msi::Package::create(ptype_of(p), m) {
                 Ok(pkg) => {
@@ -617,6 +617,32 @@ pub fn exec_line(sess: &mut Session, line: &str) -> String {
         }
         "@fault_sweep" => crate::faults::sweep(toks[1].parse().unwrap(), toks[2], toks[3]),
         "oracle_only_session" => "ok".to_string(),
+        "@readonly_file_mutation" => match catch_unwind(AssertUnwindSafe(|| readonly_file_mutation(toks[1].parse().unwrap()))) {
+            Ok(r) => r,
+            Err(_) => "panic".to_string(),
+        },
+        "@ctime_now" => {
+            // `set_creation_time_to_now` stores the moment of the call: between a clock reading taken
+            // before and one taken after (down to the format's 100 ns)
+            let m = crate::session::Medium::new(Vec::new());
+            match msi::Package::create(msi::PackageType::Installer, m) {
+                Ok(mut p) => {
+                    let mut bad = vec![];
+                    for _ in 0..4 {
+                        let before = SystemTime::now();
+                        p.summary_info_mut().set_creation_time_to_now();
+                        let after = SystemTime::now();
+                        match p.summary_info().creation_time() {
+                            Some(t) if t + Duration::from_nanos(100) > before && t <= after => {}
+                            other => bad.push(format!("stored={:?}_before={:?}_after={:?}", other, before, after)),
+                        }
+                        std::thread::sleep(Duration::from_millis(3));
+                    }
+                    if bad.is_empty() { "ok".to_string() } else { format!("drift:{}", bad[0].replace(' ', "")) }
+                }
+                Err(e) => format!("err {}", crate::session::kind_name(&e)),
+            }
+        }
         "@file_edit" => match catch_unwind(AssertUnwindSafe(|| file_edit(toks[1].parse().unwrap()))) {
             Ok(r) => r,
             Err(_) => "panic".to_string(),
@@ -1305,6 +1331,46 @@ pub fn file_edit(k: usize) -> String {
         Ok(bad) => format!("mismatch:{}", bad.join(",").replace(' ', "_")),
         Err(e) => e,
     };
+    let _ = fs::remove_file(&path);
+    out
+}
+
+/// finding D27: a mutating call whose medium refuses the write (a package opened read-only through
+/// `msi::open`) returns the error - and leaves the session's string pool changed, so that the next
+/// select shows cells the table never held
+pub fn readonly_file_mutation(k: usize) -> String {
+    let path = std::env::temp_dir().join(format!("msi_verif_ro_mut_{}_{}.msi", std::process::id(), k));
+    let run = || -> Result<String, String> {
+        let step = |w: &str, e: std::io::Error| format!("err:{}:{}", w, crate::session::kind_name(&e));
+        {
+            let file = fs::OpenOptions::new().read(true).write(true).create(true).truncate(true).open(&path).map_err(|e| step("create-file", e))?;
+            let mut p = msi::Package::create(msi::PackageType::Installer, file).map_err(|e| step("create", e))?;
+            p.create_table("T", vec![msi::Column::build("K").primary_key().id_string(16), msi::Column::build("V").nullable().string(16)]).map_err(|e| step("create_table", e))?;
+            p.insert_rows(msi::Insert::into("T").row(vec![msi::Value::from("a"), msi::Value::from("x")]).row(vec![msi::Value::from("b"), msi::Value::from("y")])).map_err(|e| step("insert", e))?;
+            p.flush().map_err(|e| step("flush", e))?;
+        }
+        let mut p = msi::open(&path).map_err(|e| step("open", e))?;
+        let show = |p: &mut msi::Package<fs::File>| -> String {
+            match p.select_rows(msi::Select::table("T")) {
+                Ok(rows) => rows.map(|r| format!("{:?}/{:?}", r[0], r[1])).collect::<Vec<_>>().join(";"),
+                Err(e) => format!("select-err:{}", crate::session::kind_name(&e)),
+            }
+        };
+        let before = show(&mut p);
+        let res = match k % 3 {
+            0 => p.delete_rows(msi::Delete::from("T").with(msi::Expr::col("K").eq(msi::Expr::string("a")))),
+            1 => p.update_rows(msi::Update::table("T").set("V", msi::Value::from("zzz"))),
+            _ => p.insert_rows(msi::Insert::into("T").row(vec![msi::Value::from("c"), msi::Value::from("q")])),
+        };
+        let after = show(&mut p);
+        let what = ["delete_rows", "update_rows", "insert_rows"][k % 3];
+        Ok(match res {
+            Ok(()) => format!("accepted:{what}"),
+            Err(_) if before == after => "ok".to_string(),
+            Err(e) => format!("changed:{what}:err={}:before={}:after={}", crate::session::kind_name(&e), before, after).replace(' ', "_"),
+        })
+    };
+    let out = run().unwrap_or_else(|e| e);
     let _ = fs::remove_file(&path);
     out
 }
